@@ -227,7 +227,16 @@ macro_rules! impl_vec_paths {
                 }
             }
             fn consts() -> Vec<(&'static str, Self, Vec<$E>)> {
-                vec![$( (stringify!($cn), $T::$cn, $cv) ),*]
+                let mut c = vec![$( (stringify!($cn), $T::$cn, $cv) ),*];
+                // AXES[i] is documented as the unit axes: lane i one, the others zero
+                let one = c[1].2[0];
+                let zero = c[0].2[0];
+                for (i, a) in $T::AXES.iter().enumerate() {
+                    let mut m = vec![zero; $N];
+                    m[i] = one;
+                    c.push(("AXES[i]", *a, m));
+                }
+                c
             }
             fn bad_index_write(&mut self, idx: usize, v: $E) { self[idx] = v; }
             fn short_from_slice(buf: &[$E]) -> Self { $T::from_slice(buf) }
@@ -255,23 +264,32 @@ macro_rules! vec_family_unsigned {
     };
 }
 macro_rules! vec_family_signed {
-    ($E:ty, $V2:ident, $V3:ident, $V4:ident, $f2:ident, $f3:ident, $f4:ident, $one:expr, $zero:expr, [$($extra:tt)*]) => {
+    ($E:ty, $V2:ident, $V3:ident, $V4:ident, $f2:ident, $f3:ident, $f4:ident, $one:expr, $zero:expr, [$F:ty]) => {
+        vec_family_signed!(@go $E, $V2, $V3, $V4, $f2, $f3, $f4, $one, $zero,
+            [, (NAN, vec![<$F>::NAN; 2]), (INFINITY, vec![<$F>::INFINITY; 2]), (NEG_INFINITY, vec![<$F>::NEG_INFINITY; 2])],
+            [, (NAN, vec![<$F>::NAN; 3]), (INFINITY, vec![<$F>::INFINITY; 3]), (NEG_INFINITY, vec![<$F>::NEG_INFINITY; 3])],
+            [, (NAN, vec![<$F>::NAN; 4]), (INFINITY, vec![<$F>::INFINITY; 4]), (NEG_INFINITY, vec![<$F>::NEG_INFINITY; 4])]);
+    };
+    ($E:ty, $V2:ident, $V3:ident, $V4:ident, $f2:ident, $f3:ident, $f4:ident, $one:expr, $zero:expr, []) => {
+        vec_family_signed!(@go $E, $V2, $V3, $V4, $f2, $f3, $f4, $one, $zero, [], [], []);
+    };
+    (@go $E:ty, $V2:ident, $V3:ident, $V4:ident, $f2:ident, $f3:ident, $f4:ident, $one:expr, $zero:expr, [$($x2:tt)*], [$($x3:tt)*], [$($x4:tt)*]) => {
         impl_vec_paths!($V2, $E, 2, $f2, [(ZERO, vec![$zero; 2]), (ONE, vec![$one; 2]), (NEG_ONE, vec![-$one; 2]), (MIN, vec![<$E>::MIN; 2]),
             (MAX, vec![<$E>::MAX; 2]), (X, unit_vec!($E, 2, 0, $one, $zero)), (Y, unit_vec!($E, 2, 1, $one, $zero)),
-            (NEG_X, unit_vec!($E, 2, 0, -$one, $zero)), (NEG_Y, unit_vec!($E, 2, 1, -$one, $zero)) $($extra)*]);
+            (NEG_X, unit_vec!($E, 2, 0, -$one, $zero)), (NEG_Y, unit_vec!($E, 2, 1, -$one, $zero)) $($x2)*]);
         impl_vec_paths!($V3, $E, 3, $f3, [(ZERO, vec![$zero; 3]), (ONE, vec![$one; 3]), (NEG_ONE, vec![-$one; 3]), (MIN, vec![<$E>::MIN; 3]),
             (MAX, vec![<$E>::MAX; 3]), (X, unit_vec!($E, 3, 0, $one, $zero)), (Y, unit_vec!($E, 3, 1, $one, $zero)),
             (Z, unit_vec!($E, 3, 2, $one, $zero)), (NEG_X, unit_vec!($E, 3, 0, -$one, $zero)), (NEG_Y, unit_vec!($E, 3, 1, -$one, $zero)),
-            (NEG_Z, unit_vec!($E, 3, 2, -$one, $zero)) $($extra)*]);
+            (NEG_Z, unit_vec!($E, 3, 2, -$one, $zero)) $($x3)*]);
         impl_vec_paths!($V4, $E, 4, $f4, [(ZERO, vec![$zero; 4]), (ONE, vec![$one; 4]), (NEG_ONE, vec![-$one; 4]), (MIN, vec![<$E>::MIN; 4]),
             (MAX, vec![<$E>::MAX; 4]), (X, unit_vec!($E, 4, 0, $one, $zero)), (Y, unit_vec!($E, 4, 1, $one, $zero)),
             (Z, unit_vec!($E, 4, 2, $one, $zero)), (W, unit_vec!($E, 4, 3, $one, $zero)), (NEG_X, unit_vec!($E, 4, 0, -$one, $zero)),
-            (NEG_Y, unit_vec!($E, 4, 1, -$one, $zero)), (NEG_Z, unit_vec!($E, 4, 2, -$one, $zero)), (NEG_W, unit_vec!($E, 4, 3, -$one, $zero)) $($extra)*]);
+            (NEG_Y, unit_vec!($E, 4, 1, -$one, $zero)), (NEG_Z, unit_vec!($E, 4, 2, -$one, $zero)), (NEG_W, unit_vec!($E, 4, 3, -$one, $zero)) $($x4)*]);
     };
 }
 
-vec_family_signed!(f32, Vec2, Vec3, Vec4, vec2, vec3, vec4, 1.0f32, 0.0f32, []);
-vec_family_signed!(f64, DVec2, DVec3, DVec4, dvec2, dvec3, dvec4, 1.0f64, 0.0f64, []);
+vec_family_signed!(f32, Vec2, Vec3, Vec4, vec2, vec3, vec4, 1.0f32, 0.0f32, [f32]);
+vec_family_signed!(f64, DVec2, DVec3, DVec4, dvec2, dvec3, dvec4, 1.0f64, 0.0f64, [f64]);
 impl_vec_paths!(Vec3A, f32, 3, vec3a, [(ZERO, vec![0.0; 3]), (ONE, vec![1.0; 3]), (NEG_ONE, vec![-1.0; 3]), (MIN, vec![f32::MIN; 3]),
     (MAX, vec![f32::MAX; 3]), (NAN, vec![f32::NAN; 3]), (INFINITY, vec![f32::INFINITY; 3]), (NEG_INFINITY, vec![f32::NEG_INFINITY; 3]),
     (X, vec![1.0, 0.0, 0.0]), (Y, vec![0.0, 1.0, 0.0]), (Z, vec![0.0, 0.0, 1.0]), (NEG_X, vec![-1.0, 0.0, 0.0]),
@@ -602,10 +620,22 @@ fn render_lanes<E: Scalar>(bits: &[u64]) -> String {
 }
 
 /// Compare every read path of `obj` with the model.
+static NO_FMT: std::sync::atomic::AtomicBool = std::sync::atomic::AtomicBool::new(false);
+
+/// Skip the text read paths (Display / Debug) - used under Miri, where float formatting dominates
+/// the run time and the interesting paths are the pointer-cast / intrinsic ones.
+pub fn set_no_fmt(on: bool) {
+    NO_FMT.store(on, std::sync::atomic::Ordering::Relaxed);
+}
+
 fn check_reads<T: Paths>(obj: &T, model: &[u64], last_write: &str, canary: u64) -> Option<(String, String)> {
     let name = T::NAME;
     let aux: Vec<T::E> = vec![T::E::from_bits64(canary)];
+    let no_fmt = NO_FMT.load(std::sync::atomic::Ordering::Relaxed);
     for &rp in T::rpaths() {
+        if no_fmt && matches!(rp, RPath::Display | RPath::DisplayPrec | RPath::Debug | RPath::DebugAlt) {
+            continue;
+        }
         let out = match util::catch(|| obj.read(rp, &aux)) {
             Ok(o) => o,
             Err(p) => {
@@ -749,6 +779,7 @@ pub fn execute<T: Paths + V>(h: &[Step], stats: &mut Stats) -> Option<(usize, St
                 stats.fault("POISON_LANE3", hidden::is_padded(&v));
                 obj = T::from_val(&pv);
             }
+            Step::Sink { .. } if NO_FMT.load(std::sync::atomic::Ordering::Relaxed) => {}
             Step::Sink { k: fail_at, debug } => {
                 last = format!("SINK_ERR@{fail_at}");
                 let full = if *debug { format!("{:?}", obj) } else { format!("{}", obj) };
@@ -852,8 +883,12 @@ fn shrink(e: &Entry17, h: &[Step], class: &str) -> Vec<Step> {
     cur
 }
 
-pub fn run(seed: u64, histories: usize, workers: usize, with_faults: bool) -> Summary {
-    let ents = entries();
+pub fn run(seed: u64, histories: usize, workers: usize, with_faults: bool, types: Option<&str>) -> Summary {
+    let mut ents = entries();
+    if let Some(t) = types {
+        let want: Vec<&str> = t.split(',').collect();
+        ents.retain(|e| want.contains(&e.name));
+    }
     let mut sum = Summary::default();
     for k in ["BAD_INDEX", "SHORT_SLICE", "POISON_LANE3", "SINK_ERR@k"] {
         sum.faults_fired.insert(k.into(), 0);
@@ -883,7 +918,35 @@ pub fn run(seed: u64, histories: usize, workers: usize, with_faults: bool) -> Su
             });
             let mut d = util::Digest::default();
             for s in &h {
-                d.push_str(&step_json(s).to_string());
+                match s {
+                    Step::Write { path, lane, vals, off } => {
+                        d.push(1);
+                        d.push(*path as u64);
+                        d.push(*lane as u64);
+                        d.push(*off as u64);
+                        vals.iter().for_each(|v| d.push(*v));
+                    }
+                    Step::BadIndex { idx, val } => {
+                        d.push(2);
+                        d.push(*idx as u64);
+                        d.push(*val);
+                    }
+                    Step::ShortSlice { len, vals } => {
+                        d.push(3);
+                        d.push(*len as u64);
+                        vals.iter().for_each(|v| d.push(*v));
+                    }
+                    Step::Poison { bits, route } => {
+                        d.push(4);
+                        d.push(*bits as u64);
+                        d.push(*route as u64);
+                    }
+                    Step::Sink { k, debug } => {
+                        d.push(5);
+                        d.push(*k as u64);
+                        d.push(*debug as u64);
+                    }
+                }
             }
             let sample = if hi == 0 && ti % 13 == 0 { Some(json!({"type": e.name, "history": h.iter().map(step_json).collect::<Vec<_>>()})) } else { None };
             (st, viol, d.finish(), sample)
@@ -931,4 +994,31 @@ pub fn replay(j: &J) -> Option<(String, String)> {
     let h: Vec<Step> = j["history"].as_array().unwrap().iter().map(step_from).collect();
     let mut st = Stats::default();
     (e.exec)(&h, &mut st).map(|(_, c, d)| (c, d))
+}
+
+pub fn prof() {
+    use std::time::Instant;
+    let obj = Vec3A::new(1.0, 2.0, 3.0);
+    let aux = [7.0f32];
+    for &rp in <Vec3A as Paths>::rpaths() {
+        let t = Instant::now();
+        for _ in 0..10 {
+            let _ = util::catch(|| obj.read(rp, &aux));
+        }
+        eprintln!("read {:?}: {:?}", rp, t.elapsed() / 10);
+    }
+    let t = Instant::now();
+    for _ in 0..10 {
+        let mut o = obj;
+        o.write(WPath::Field, 1, &[5.0], 0);
+    }
+    eprintln!("write field: {:?}", t.elapsed() / 10);
+    let h = gen_history::<Vec3A>(1, 0, 0, true);
+    let t = Instant::now();
+    let mut st = Stats::default();
+    let _ = execute::<Vec3A>(&h, &mut st);
+    eprintln!("execute {} steps: {:?}", h.len(), t.elapsed());
+    let t = Instant::now();
+    let _ = gen_history::<Vec3A>(1, 0, 1, true);
+    eprintln!("gen_history: {:?}", t.elapsed());
 }
